@@ -57,7 +57,9 @@ class SessionWorld(object):
         self.pkg = os.path.join(self.dir, 'pkg')
         os.mkdir(self.pkg)
         fw.build_indep_package(self.pkg, self.names, hdr['grid'], self.filts, self.wavs)
-        self.law = fw.make_extinction(hdr['K'], self.wavs)
+        import astropy.units as _u
+        lu = [(None, None), (_u.nm, None), (_u.cm, _u.m ** 2 / _u.kg), (_u.angstrom, None)][(sum(hdr['K']) + len(hdr['pool'])) % 4]
+        self.law = fw.make_extinction(hdr['K'], self.wavs, wav_unit=lu[0], chi_unit=lu[1])     # the law may be tabulated in any units
         t = Table()
         perm = table_perm or list(range(self.nm))[::-1]
         t['MODEL_NAME'] = np.array([self.names[i] for i in perm], dtype='S30')
@@ -244,6 +246,7 @@ def replay_behaviour(col, w, b, hdr, rng, pid):
     ok_meta = (meta.model_dir == w.pkg and [f.get('name') for f in meta.filters] == w.filts
                and [float(f['aperture_arcsec']) for f in meta.filters] == [3.0] * w.nb
                and np.allclose([f['wav'].to('micron').value for f in meta.filters], w.wavs)
+               and meta.extinction_law.wav.unit == w.law.wav.unit and meta.extinction_law.chi.unit == w.law.chi.unit
                and np.array_equal(meta.extinction_law.wav.value, w.law.wav.value)
                and np.array_equal(meta.extinction_law.chi.value, w.law.chi.value))
     if not ok_meta:
@@ -531,7 +534,8 @@ def record_world(sd, root, n_sessions):
                                'line': ln})
             inorder = [e['line'] for e in evrecs] == line_of[:len(evrecs)]
             ok_meta = (meta.model_dir == w.pkg and [f.get('name') for f in meta.filters] == w.filts
-                       and np.array_equal(meta.extinction_law.chi.value, w.law.chi.value))
+                       and meta.extinction_law.wav.unit == w.law.wav.unit and np.array_equal(meta.extinction_law.wav.value, w.law.wav.value)
+                       and meta.extinction_law.chi.unit == w.law.chi.unit and np.array_equal(meta.extinction_law.chi.value, w.law.chi.value))
             tr.append({'ev': 'File', 'recs': evrecs if inorder else evrecs[::-1], 'meta': int(ok_meta)})
             fin = FitInfoFile(out, 'r')
             objs = list(fin)
